@@ -4,6 +4,7 @@
    observed result classes; everything here is recomputed by Coq from the case index. *)
 From Coq Require Import ZArith.
 From KM Require Import Base.Bytes Model.Auth Model.Certgen.
+From KM Require Model.Seal.
 Open Scope N_scope.
 
 (* ---- configurations: index < 512 = the subset of the nine proto strings with that bit mask,
@@ -85,6 +86,21 @@ Definition sh_tls (c : tlsinfo) (cr : cred) (target : N) : shape :=
 Definition sh_origin (o : origin) (c : cred) (target : N) : shape :=
   {| h_origin := o; h_tls := None; h_cred := c; h_target := target; h_limiter_ok := true |}.
 
+(* addresses and netblocks of the IP-certificate shapes *)
+Definition ipv4 (a b c d : N) : N := ((a * 256 + b) * 256 + c) * 256 + d.
+Definition a_loopback : N := ipv4 127 0 0 1.
+Definition a_inside : N := ipv4 10 9 8 7.
+Definition a_outside : N := ipv4 192 168 1 1.
+Definition a_elsewhere : N := ipv4 203 0 113 9.
+Definition blocks10 : list (N * N) := [(ipv4 10 0 0 0, 8)].
+Definition blocks127 : list (N * N) := [(ipv4 127 0 0 0, 8)].
+Definition on_peer (a : N) : conn := {| n_peer := a; n_xff := []; n_xreal := None; n_forwarded := None |}.
+Definition fwd (a : N) (xff : list N) (xreal forwarded : option N) : conn :=
+  {| n_peer := a; n_xff := xff; n_xreal := xreal; n_forwarded := forwarded |}.
+(* an automation certificate with these blocks presented on this connection *)
+Definition ip_shape (iss : issuer) (blocks : list (N * N)) (cn : conn) (target : N) : shape :=
+  sh_tls (with_ip_valid (cert true iss true 3 false false false true) (ip_valid (Some blocks) cn)) NoCred target.
+
 Definition u2f_cookie (sub : N) : cred := Cookie (tok sub bU2F).
 Definition bad_cookie : cred := Cookie (with_flags (tok 1 bU2F) false true false true true 0).
 
@@ -155,25 +171,55 @@ Definition shapes : list shape :=
     sh_origin BadOrigin (u2f_cookie 1) 1; sh_origin SameOrigin (u2f_cookie 1) 1;
     sh_origin CrossOrigin (u2f_cookie 1) 1;
     (* 71..73 two cookies (the last one counts), cookie next to basic auth (the cookie counts) *)
-    sh bad_cookie 1; sh (u2f_cookie 1) 1; sh bad_cookie 1 ].
+    sh bad_cookie 1; sh (u2f_cookie 1) 1; sh bad_cookie 1;
+    (* 74..82 the client address of an IP-restricted certificate is the TCP peer, whatever the
+       forwarding headers claim: loopback / outside / inside peers x X-Forwarded-For / X-Real-Ip /
+       Forwarded naming an address inside or outside the blocks *)
+    ip_shape RoleCA blocks10 (on_peer a_loopback) 3;
+    ip_shape RoleCA blocks10 (fwd a_loopback [a_inside] None None) 3;
+    ip_shape RoleCA blocks10 (fwd a_loopback [] (Some a_inside) None) 3;
+    ip_shape RoleCA blocks10 (fwd a_loopback [a_inside; a_elsewhere] (Some a_inside) None) 3;
+    ip_shape RoleCA blocks10 (fwd a_outside [a_inside] (Some a_inside) None) 3;
+    ip_shape RoleCA blocks10 (fwd a_inside [a_outside] (Some a_outside) None) 3;
+    ip_shape RoleCA blocks10 (fwd a_loopback [] None (Some a_inside)) 3;
+    ip_shape MainCA blocks10 (fwd a_loopback [a_inside] (Some a_inside) None) 3;
+    ip_shape RoleCA blocks127 (fwd a_loopback [a_outside] (Some a_outside) None) 3 ].
 Definition n_shapes : N := Eval vm_compute in N.of_nat (length shapes).
 Definition default_shape : shape := sh NoCred 1.
 
+(* 0 ssh, 1 x509, 2 x509-kubernetes, 3 bogus, 4 ssh with an ssh-ed25519 user key *)
 Definition type_of_index (i : N) : certtype :=
-  if i =? 0 then TSsh else if i =? 1 then TX509 else if i =? 2 then TKube else TBogus.
+  if (i =? 0) || (i =? 4) then TSsh else if i =? 1 then TX509 else if i =? 2 then TKube else TBogus.
+Definition ed_key_of_index (i : N) : bool := i =? 4.
 Definition method_of_index (i : N) : hmethod :=
   if i =? 0 then HPost else if i =? 1 then HGet else HOther.
 
+(* ---- which signers are loaded: 0 main signer only (unsealed), 1 nothing (sealed), 2 main and
+   Ed25519 signer (unsealed), 3 Ed25519 signer only (sealed: the main signer is what unseals).
+   The states are those of the sealing model: a configuration with / without an Ed25519 file whose
+   own main key is listed in keymaster_public_keys_filename, freshly loaded, after the right
+   passphrase, or half-loaded. *)
+Definition key_pass : bs := [112].
+Definition key_cfg (with_ed : bool) : Seal.cfg :=
+  {| Seal.right_pass := key_pass; Seal.main_key := 1; Seal.main_res := Seal.FGood; Seal.role_ok := true;
+     Seal.ed_file := if with_ed then Some (key_pass, 2, Seal.FGood) else None; Seal.extra_pubkeys := [1] |}.
+Definition case_keys (ks : N) : Seal.state :=
+  if ks =? 0 then fst (Seal.unseal_ca (key_cfg false) (Seal.sealed_init (key_cfg false)) key_pass)
+  else if ks =? 2 then fst (Seal.unseal_ca (key_cfg true) (Seal.sealed_init (key_cfg true)) key_pass)
+  else if ks =? 3 then Seal.half_loaded (key_cfg true)
+  else Seal.sealed_init (key_cfg false).
+
 (* the server of the enumeration: no extension templates, no realm, no directory *)
-Definition case_server (sealed : bool) (cfg : list bs) : server :=
-  {| s_sealed := sealed; s_cfg := cfg; s_name := case_name; s_host := [];
-     s_ed25519_ca := false; s_templates := []; s_realm := None;
+Definition case_server_ks (ks : N) (cfg : list bs) : server :=
+  {| s_keys := case_keys ks; s_cfg := cfg; s_name := case_name; s_host := [];
+     s_templates := []; s_realm := None;
      s_groups := fun _ => Some []; s_methods := fun _ => Some [] |}.
+Definition case_server (sealed : bool) (cfg : list bs) : server := case_server_ks (if sealed then 1 else 0) cfg.
 
 Definition case_req (s : shape) (ty m : N) : certreq :=
   {| q_method := method_of_index m; q_origin := h_origin s; q_tls := h_tls s; q_cred := h_cred s;
      q_target := case_name (h_target s); q_type := type_of_index ty; q_form_ok := true;
-     q_key := Some (0, false); q_add_groups := false |}.
+     q_key := Some (0, ed_key_of_index ty); q_add_groups := false |}.
 
 (* observable class of a response: 0 = an error status and no certificate, 1 = neither an error
    nor a certificate, 2 + 4*user + kind = a certificate (kind 0 SSH, 1 X.509) naming that user *)
@@ -185,29 +231,51 @@ Definition class_of (o : outcome) : N :=
 
 Definition no_expand (t u : bs) : option bs := Some t.
 
-Definition run_case (cfg shp ty m sealed : N) : N :=
+(* the last argument is the key state (0 / 1 = the unsealed / sealed server of the basic enumeration) *)
+Definition run_case (cfg shp ty m ks : N) : N :=
   let s := nth (N.to_nat shp) shapes default_shape in
-  class_of (certgen no_expand (case_server (sealed =? 1) (cfg_of_index cfg)) 0%Z (h_limiter_ok s) (case_req s ty m)).
+  class_of (certgen no_expand (case_server_ks ks (cfg_of_index cfg)) 0%Z (h_limiter_ok s) (case_req s ty m)).
 
 (* ---- enumeration orders.
    full: index = (((cfg * n_shapes + shape) * 4 + type) * 3 + method) * 2 + sealed
    quick: block A = cfg * n_shapes + shape at (ssh, POST, unsealed) for every cfg and shape;
           block B = for the other 23 (type, method, sealed) combinations, every shape under the
           eight configurations quick_cfgs *)
-Definition full_total : N := n_cfgs * n_shapes * 24.
+(* block C of both tiers, the signer-state dimension: (key state, type) combinations beyond the basic
+   product, POST: both signers loaded and only the Ed25519 signer loaded x {ssh with an ECDSA user
+   key, ssh with an Ed25519 user key, x509}, and the Ed25519 user key on the two basic states *)
+Definition ks_combos : list (N * N) := [(2, 0); (2, 4); (2, 1); (3, 0); (3, 4); (3, 1); (0, 4); (1, 4)].
+Definition n_ks_combos : N := 8.
+Definition ks_case (cfg shp combo : N) : N :=
+  let '(ks, ty) := nth (N.to_nat combo) ks_combos (0, 0) in run_case cfg shp ty 0 ks.
+
+Definition full_a_total : N := n_cfgs * n_shapes * 24.
+Definition full_total : N := full_a_total + n_cfgs * n_shapes * n_ks_combos.
 Definition full_case (i : N) : N :=
-  let sealed := i mod 2 in let i := i / 2 in
-  let m := i mod 3 in let i := i / 3 in
-  let ty := i mod 4 in let i := i / 4 in
-  let shp := i mod n_shapes in let cfg := i / n_shapes in
-  run_case cfg shp ty m sealed.
+  if i <? full_a_total then
+    let sealed := i mod 2 in let i := i / 2 in
+    let m := i mod 3 in let i := i / 3 in
+    let ty := i mod 4 in let i := i / 4 in
+    let shp := i mod n_shapes in let cfg := i / n_shapes in
+    run_case cfg shp ty m sealed
+  else
+    let j := i - full_a_total in
+    let combo := j mod n_ks_combos in let j := j / n_ks_combos in
+    ks_case (j / n_shapes) (j mod n_shapes) combo.
 
 Definition quick_cfgs : list N := [0; 1; 4; 32; 96; 511; 513; 526].
 Definition quick_a_total : N := n_cfgs * n_shapes.
 Definition quick_b_total : N := 23 * 8 * n_shapes.
-Definition quick_total : N := quick_a_total + quick_b_total.
+Definition quick_c_cfgs : list N := [1; 4; 511].
+Definition quick_c_total : N := n_ks_combos * 3 * n_shapes.
+Definition quick_total : N := quick_a_total + quick_b_total + quick_c_total.
 Definition quick_case (i : N) : N :=
   if i <? quick_a_total then run_case (i / n_shapes) (i mod n_shapes) 0 0 0
+  else if quick_a_total + quick_b_total <=? i then
+    let j := i - (quick_a_total + quick_b_total) in
+    let shp := j mod n_shapes in let j := j / n_shapes in
+    let c := j mod 3 in let combo := j / 3 in
+    ks_case (nth (N.to_nat c) quick_c_cfgs 0) shp combo
   else
     let j := i - quick_a_total in
     let shp := j mod n_shapes in let j := j / n_shapes in
